@@ -84,6 +84,8 @@ def rebalance_spec(draw):
             p0[b_], mv[b_], mult[b_] = p0[a_], mv[a_], mult[a_]
             spec["sub"]["tickers"] = sorted(set(spec["sub"]["tickers"]) | {a_, b_})
             spec["sub"]["zero_book"] = [a_, b_, draw(st.sampled_from([1.0, 25.0, 1000.0]))]
+    # a contribution / withdrawal booked by CapitalFlow earlier in the same stack: the targets are fractions of the value after the flow
+    spec["pre_flow"] = draw(st.sampled_from([None, None, None, 0.25, 1.0, -0.2, -0.5]))
     return spec
 
 
@@ -145,6 +147,9 @@ def case_rebalance(ctx, spec):
     base = s.value
     c = spec["cash"] or 0.0
     targets = spec["targets"]
+    flow = 0.0
+    if spec.get("pre_flow") and not spec.get("dollar_neutral") and not (spec.get("sub") or {}).get("zero_book"):
+        flow = round(spec["pre_flow"] * base, 2)
     before = {m.full_name: (m.value, getattr(m, "position", None), m.weight) for m in s.members}
     sub_children_w = {}
     if spec.get("sub"):
@@ -155,6 +160,10 @@ def case_rebalance(ctx, spec):
     s.temp = {"weights": dict(targets)}
     if spec["cash"] is not None:
         s.temp["cash"] = spec["cash"]
+    if flow:
+        # the two algos follow each other in one stack: nothing reads the tree in between
+        bt.algos.CapitalFlow(flow)(s)
+        base = base + flow
     try:
         ok = bt.algos.Rebalance()(s)
     except Exception as e:
@@ -171,6 +180,8 @@ def case_rebalance(ctx, spec):
         labs.append("dollar_neutral_prior" + ("+cash" if spec["cash"] else ""))
     if spec["cash"]:
         labs.append("cash")
+    if flow:
+        labs.append("capital_flow_before_rebalance")
     if spec.get("sub") and spec["sub"].get("zero_book"):
         labs.append("zero_value_sub_book" + ("_targeted" if "sub" in targets else "_not_targeted"))
     prior_nonempty = any(v[1] not in (None, 0) for v in before.values())
